@@ -6,6 +6,16 @@ package main
 // ("A" = the CA the configurations name, "B" = a foreign CA), server leaves {good, wronghost,
 // untrusted, expired}, client leaves {good, foreign}.  The abstract attributes of every
 // certificate (signer, names, expired) are mirrored by the table in SA/Model/TlsConfig.lean.
+//
+// Validity-boundary classes (server and client leaves alike) are NOT generated once: serverLeaf /
+// clientLeaf sign a new certificate at the moment of use, with the validity period placed
+// relative to that moment, so that the class cannot flip while an op runs (an op is abandoned
+// after 60 s at most; X.509 times have a resolution of one second):
+//   exp1m   NotAfter  = now - 60 s                         outside the period (expired a minute ago)
+//   exp1s   NotAfter  = now - 1 s                          outside (expired a second ago)
+//   notyet  NotBefore = now + 120 s                        outside (not yet valid)
+//   fresh   NotBefore = now - 60 s, NotAfter = now + 120 s inside (issued a minute ago, short-lived)
+// "expired" (client leaves too) ended 24 h ago.
 
 import (
 	"crypto/ecdsa"
@@ -29,8 +39,16 @@ type c05Leaf struct {
 	keyPEM  string
 }
 
+type c05CA struct {
+	cert *x509.Certificate
+	key  *ecdsa.PrivateKey
+}
+
 type c05PKI struct {
 	caPEM  map[string]string // "A", "B"
+	cas    map[string]c05CA
+	serial int64
+	mu     sync.Mutex
 	server map[string]c05Leaf
 	client map[string]c05Leaf
 	// extra material for the tlscfg option classes
@@ -70,18 +88,14 @@ func c05pemKey(k *ecdsa.PrivateKey) string {
 
 func getC05PKI() *c05PKI {
 	c05pkiOnce.Do(func() {
-		p := &c05PKI{caPEM: map[string]string{}, server: map[string]c05Leaf{}, client: map[string]c05Leaf{}}
+		p := &c05PKI{caPEM: map[string]string{}, cas: map[string]c05CA{}, server: map[string]c05Leaf{}, client: map[string]c05Leaf{}, serial: 1000}
 		now := time.Now()
-		serial := int64(1000)
-		type ca struct {
-			cert *x509.Certificate
-			key  *ecdsa.PrivateKey
-		}
+		type ca = c05CA
 		mkCA := func(name string) ca {
 			k := c05mustKey()
-			serial++
+			p.serial++
 			t := &x509.Certificate{
-				SerialNumber:          big.NewInt(serial),
+				SerialNumber:          big.NewInt(p.serial),
 				Subject:               pkix.Name{CommonName: name, Organization: []string{"verif"}},
 				NotBefore:             now.Add(-24 * time.Hour),
 				NotAfter:              now.Add(24 * 365 * time.Hour),
@@ -95,31 +109,16 @@ func getC05PKI() *c05PKI {
 			}
 			c, _ := x509.ParseCertificate(der)
 			p.caPEM[name] = c05pemCert(der)
+			p.cas[name] = ca{c, k}
 			return ca{c, k}
 		}
 		caA, caB := mkCA("A"), mkCA("B")
 		mkLeaf := func(signer ca, cn string, dns []string, ips []net.IP, expired bool, usage x509.ExtKeyUsage) (c05Leaf, *ecdsa.PrivateKey) {
-			k := c05mustKey()
-			serial++
-			t := &x509.Certificate{
-				SerialNumber: big.NewInt(serial),
-				Subject:      pkix.Name{CommonName: cn},
-				NotBefore:    now.Add(-24 * time.Hour),
-				NotAfter:     now.Add(24 * 30 * time.Hour),
-				KeyUsage:     x509.KeyUsageDigitalSignature,
-				ExtKeyUsage:  []x509.ExtKeyUsage{usage},
-				DNSNames:     dns,
-				IPAddresses:  ips,
-			}
+			nb, na := now.Add(-24*time.Hour), now.Add(24*30*time.Hour)
 			if expired {
-				t.NotBefore = now.Add(-48 * time.Hour)
-				t.NotAfter = now.Add(-24 * time.Hour)
+				nb, na = now.Add(-48*time.Hour), now.Add(-24*time.Hour)
 			}
-			der, err := x509.CreateCertificate(rand.Reader, t, signer.cert, &k.PublicKey, signer.key)
-			if err != nil {
-				panic(err)
-			}
-			return c05Leaf{c05pemCert(der), c05pemKey(k)}, k
+			return p.mkLeaf(signer, cn, dns, ips, nb, na, usage)
 		}
 		goodNames := []string{"server.test", "localhost"}
 		goodIPs := []net.IP{net.ParseIP("127.0.0.1")}
@@ -132,6 +131,7 @@ func getC05PKI() *c05PKI {
 		p.server["expired"], _ = mkLeaf(caA, "server.test", goodNames, goodIPs, true, x509.ExtKeyUsageServerAuth)
 		p.client["good"], _ = mkLeaf(caA, "client-good", nil, nil, false, x509.ExtKeyUsageClientAuth)
 		p.client["foreign"], _ = mkLeaf(caB, "client-foreign", nil, nil, false, x509.ExtKeyUsageClientAuth)
+		p.client["expired"], _ = mkLeaf(caA, "client-expired", nil, nil, true, x509.ExtKeyUsageClientAuth)
 
 		p.otherKeyPEM = c05pemKey(c05mustKey())
 		enc, err := pkcs8.MarshalPrivateKey(goodKey, []byte(c05Password), nil)
@@ -174,6 +174,70 @@ func getC05PKI() *c05PKI {
 		c05pki = p
 	})
 	return c05pki
+}
+
+func (p *c05PKI) mkLeaf(signer c05CA, cn string, dns []string, ips []net.IP, notBefore, notAfter time.Time, usage x509.ExtKeyUsage) (c05Leaf, *ecdsa.PrivateKey) {
+	k := c05mustKey()
+	p.mu.Lock()
+	p.serial++
+	serial := p.serial
+	p.mu.Unlock()
+	t := &x509.Certificate{
+		SerialNumber: big.NewInt(serial),
+		Subject:      pkix.Name{CommonName: cn},
+		NotBefore:    notBefore,
+		NotAfter:     notAfter,
+		KeyUsage:     x509.KeyUsageDigitalSignature,
+		ExtKeyUsage:  []x509.ExtKeyUsage{usage},
+		DNSNames:     dns,
+		IPAddresses:  ips,
+	}
+	der, err := x509.CreateCertificate(rand.Reader, t, signer.cert, &k.PublicKey, signer.key)
+	if err != nil {
+		panic(err)
+	}
+	return c05Leaf{c05pemCert(der), c05pemKey(k)}, k
+}
+
+// validity-boundary classes: the period relative to the moment of use (see the file comment)
+var c05BoundaryClasses = []string{"exp1m", "exp1s", "notyet", "fresh"}
+
+func c05boundaryPeriod(class string, now time.Time) (nb, na time.Time, ok bool) {
+	switch class {
+	case "exp1m":
+		return now.Add(-24 * time.Hour), now.Add(-60 * time.Second), true
+	case "exp1s":
+		return now.Add(-24 * time.Hour), now.Add(-1 * time.Second), true
+	case "notyet":
+		return now.Add(120 * time.Second), now.Add(24 * time.Hour), true
+	case "fresh":
+		return now.Add(-60 * time.Second), now.Add(120 * time.Second), true
+	}
+	return
+}
+
+// c05outsideValidity: the abstract attribute "not inside its validity period at the moment of use"
+func c05outsideValidity(class string) bool {
+	return class == "expired" || class == "exp1m" || class == "exp1s" || class == "notyet"
+}
+
+// serverLeaf returns the server certificate of a class: the fixed one, or for a boundary class a
+// certificate signed now by CA A for the names of "good".
+func (p *c05PKI) serverLeaf(class string) c05Leaf {
+	if nb, na, ok := c05boundaryPeriod(class, time.Now()); ok {
+		l, _ := p.mkLeaf(p.cas["A"], "server.test", []string{"server.test", "localhost"}, []net.IP{net.ParseIP("127.0.0.1")}, nb, na, x509.ExtKeyUsageServerAuth)
+		return l
+	}
+	return p.server[class]
+}
+
+// clientLeaf: likewise for client certificates (signed by CA A).
+func (p *c05PKI) clientLeaf(class string) c05Leaf {
+	if nb, na, ok := c05boundaryPeriod(class, time.Now()); ok {
+		l, _ := p.mkLeaf(p.cas["A"], "client-"+class, nil, nil, nb, na, x509.ExtKeyUsageClientAuth)
+		return l
+	}
+	return p.client[class]
 }
 
 func (p *c05PKI) file(name string) string { return filepath.Join(p.dir, name) }
